@@ -13,6 +13,12 @@ EXTENDS Grammar, Pratt, Prec, Lexer, Eval, Json, IOUtils
 CONSTANT KnownDevs
 VARIABLES chunk, phase
 
+RECURSIVE SpellableNums(_)
+SpellableNums(v) == CASE v.t = "num" -> v.q \in {1, 2, 4, 5, 10}
+                      [] v.t = "arr" -> \A i \in DOMAIN v.a : SpellableNums(v.a[i])
+                      [] v.t = "obj" -> \A i \in DOMAIN v.o : SpellableNums(v.o[i].v)
+                      [] OTHER -> TRUE
+
 KindClass(k) == CASE k \in {"not_enough_arguments", "too_many_arguments"} -> "arity"
                   [] k \in {"invalid_type", "invalid_return_type"} -> "type"
                   [] k = "unknown_function" -> "unknown"
@@ -22,7 +28,7 @@ KindClass(k) == CASE k \in {"not_enough_arguments", "too_many_arguments"} -> "ar
 Exp(r) ==
   LET L == Lex(r.text, {}) IN
   IF ~L.ok \/ ~L.dom \/ L.toks = <<>> \/ ~Accepts(L.toks, {}) THEN [skip |-> TRUE]
-  ELSE [skip |-> FALSE, o |-> Eval(TreeOf(L.toks), r.doc, Builtins)]
+  ELSE LET t == TreeOf(L.toks) IN [skip |-> FALSE, t |-> t, o |-> Eval(t, r.doc, Builtins)]
 
 (* how the observed outcome relates to the outcome o the specification assigns *)
 Verdict(o, out) ==
@@ -34,7 +40,34 @@ Verdict(o, out) ==
              ELSE "errkind")
   ELSE "crash"
 
-Why(r) == LET x == Exp(r) IN IF x.skip THEN "none" ELSE Verdict(x.o, r.out)
+(* Two places where the general rule "amb => not judged" would be needlessly weak, decided by the relation the
+   property states instead of by one value:
+   - max_by / min_by at the top of the expression: any input element whose key is extreme is a correct answer;
+   - to_string of a value taken straight from the document or a literal: integers are spelled as integers there,
+     so the JSON text is determined. *)
+Special(t, doc, out) ==
+  IF t.n = "Function" /\ FnOf(t.name) \in {"max_by", "min_by"} /\ Len(t.args) = 2 /\ t.args[2].n = "Expref"
+  THEN LET xs == Eval(t.args[1], doc, Builtins) IN
+       IF IsVOk(xs) /\ ~xs.amb /\ xs.ok.t = "arr" /\ xs.ok.a # <<>>
+       THEN LET ks == KeysOf(t.args[2].l, xs.ok.a, 1, Builtins, [vals |-> <<>>, amb |-> FALSE]) IN
+            IF IsVOk(ks) /\ ~ks.amb
+            THEN IF "ok" \in DOMAIN out /\ \E i \in DOMAIN xs.ok.a :
+                        /\ xs.ok.a[i] = out.ok
+                        /\ \A j \in DOMAIN ks.ok : IF FnOf(t.name) = "max_by" THEN ~ValLess(ks.ok[i], ks.ok[j]) ELSE ~ValLess(ks.ok[j], ks.ok[i])
+                 THEN "none" ELSE "value"
+            ELSE "na"
+       ELSE "na"
+  ELSE IF t.n = "Function" /\ FnOf(t.name) = "to_string" /\ Len(t.args) = 1 /\ t.args[1].n \in {"Field", "Identity", "Literal"}
+  THEN LET x == Eval(t.args[1], doc, Builtins).ok IN
+       IF x.t \in {"str", "expref"} \/ ~SpellableNums(x) THEN "na"
+       ELSE IF "ok" \in DOMAIN out /\ out.ok = JStr(JsonText(x)) THEN "none" ELSE "value"
+  ELSE "na"
+
+Why(r) ==
+  LET x == Exp(r) IN
+  IF x.skip THEN "none"
+  ELSE IF x.o.amb THEN LET sp == Special(x.t, r.doc, r.out) IN IF sp = "na" THEN "none" ELSE sp
+  ELSE Verdict(x.o, r.out)
 
 (* Level 1 with deviations D reproduces the observation: same acceptance, and the meaning of the tree the parser
    model builds under D is the observed outcome *)
@@ -51,6 +84,8 @@ Explains(r) ==
   THEN SelectSeq(KnownSeq, LAMBDA d : ~Repro(r, KnownDevs \ {d}))
   ELSE <<>>
 NonTrivial(r) == "ok" \in DOMAIN r.out /\ r.out.ok.t # "null"
+
+Unjudged(r) == LET x == Exp(r) IN x.skip \/ (x.o.amb /\ Special(x.t, r.doc, r.out) = "na")
 
 J == INSTANCE JudgeLoop
 Spec == J!Spec
